@@ -5,6 +5,7 @@ import Driver.Bind
 import Driver.Deps
 import Driver.Finder
 import Driver.Discover
+import Driver.Attrs
 open Lean
 
 def dispatch (j : Json) : Except String Json := do
@@ -18,6 +19,10 @@ def dispatch (j : Json) : Except String Json := do
   | "middleware" => Driver.DepsD.handleMw j
   | "finder" => Driver.FinderD.handle j
   | "discover" => Driver.DiscoverD.handle j
+  | "attrs" => Driver.AttrsD.handle j
+  | "parseattrs" => Driver.AttrsD.handleParse j
+  | "slotesc" => Driver.AttrsD.handleSlot j
+  | "guard" => Driver.AttrsD.handleGuard j
   | "ping" => pure (Json.mkObj [("pong", Json.bool true)])
   | _ => throw s!"unknown op {op}"
 
